@@ -44,6 +44,9 @@ type c15Case struct {
 	// TSOFault > 0: the engine's timestamp service fails the new node's TSOFault-th request once (the election reads
 	// the start revision from it right after writing the lock record)
 	TSOFault int `json:"tso_fault,omitempty"`
+	// Standby: the node that will take over is a long-lived standby; its elector has been polling the lock (Get) since
+	// before the old leader's history (same process, so not with a re-opened Badger)
+	Standby bool `json:"standby,omitempty"`
 }
 
 func genC15(t *rapid.T) interface{} {
@@ -78,6 +81,9 @@ func genC15(t *rapid.T) interface{} {
 	c.EagerWriters = rapid.SampledFrom([]int{0, 2, 4}).Draw(t, "eager")
 	if DrawBool(t, 15, "tsoFault") {
 		c.TSOFault = rapid.IntRange(1, 4).Draw(t, "tsoFaultAt")
+	}
+	if !c.Reopen && DrawBool(t, 30, "standby") {
+		c.Standby = true
 	}
 	for i := 0; i < 5; i++ {
 		op := genWOp(t, len(c.Keys))
@@ -155,7 +161,7 @@ func runC15(ci interface{}, st *CaseStats) error {
 	env.Init = oldB.GetCurrentRevision()
 	env.LastRev = env.Init
 	// the future leader, as a follower of the old one
-	var takeoverDone, tsoFaultFired int32
+	var takeoverDone, tsoFaultFired, released, tsoAfterRelease int32
 	// the new node's view of the store: optionally with one failing timestamp request
 	newKV := func(kv storage.KvStorage) storage.KvStorage {
 		if c.TSOFault <= 0 {
@@ -164,7 +170,11 @@ func runC15(ci interface{}, st *CaseStats) error {
 		sh := NewShim(kv, false)
 		sh.OnTSO = func(idx int) Decision {
 			// only while the node takes over: later reads use the timestamp service too and may simply fail
-			if idx == c.TSOFault-1 && atomic.LoadInt32(&takeoverDone) == 0 {
+			// counted from the moment the old leader lets go of the lock (a standby has polled before)
+			if atomic.LoadInt32(&released) == 0 {
+				return Pass
+			}
+			if int(atomic.AddInt32(&tsoAfterRelease, 1)) == c.TSOFault && atomic.LoadInt32(&takeoverDone) == 0 {
 				atomic.StoreInt32(&tsoFaultFired, 1)
 				return FailNoApply
 			}
@@ -177,7 +187,7 @@ func runC15(ci interface{}, st *CaseStats) error {
 		return sh
 	}
 	var newB backend.Backend
-	if len(c.FollowerSyncs) > 0 && !c.Reopen {
+	if (len(c.FollowerSyncs) > 0 || c.Standby) && !c.Reopen {
 		newB = backend.NewBackend(newKV(eng.KV), backend.Config{Prefix: Prefix, Identity: fmt.Sprintf("new-%d", c15Seq), WatchCacheSize: 256}, NopMetrics)
 		st.Label("new-leader-served-follower-reads-before")
 	}
@@ -189,6 +199,11 @@ func runC15(ci interface{}, st *CaseStats) error {
 	for i, op := range c.Hist {
 		if i >= c.StopAt {
 			break
+		}
+		if newB != nil && c.Standby && i%3 == 0 {
+			// the standby's elector looks at the lock once per retry period
+			_, _ = newB.GetResourceLock().Get()
+			st.Label("standby-polled-during-old-term")
 		}
 		if newB != nil && syncAt[i] {
 			// what SyncReadRevision does on a follower before a read
@@ -237,6 +252,7 @@ func runC15(ci interface{}, st *CaseStats) error {
 	if err := rl.Update(resourcelock.LeaderElectionRecord{HolderIdentity: "", LeaseDurationSeconds: 1, AcquireTime: now, RenewTime: now}); err != nil {
 		return Inconclusivef("old leader release: %v", err)
 	}
+	atomic.StoreInt32(&released, 1)
 	StopBackend(oldB)
 	time.Sleep(300 * time.Microsecond)
 	kv := eng.KV
